@@ -136,13 +136,13 @@ Proof.
     { rewrite Forall_forall in *. intros x Hx. apply IH; [exact Hx|apply Hall; exact Hx]. }
     cbn [bind]. destruct (IHf Hff st1) as [jf [st2 ->]]. cbn [bind]. eauto.
   - intros id mo c sh l IH Hf st. cbn [fragb] in Hf. apply andb_prop in Hf. destruct Hf as [Hf Hall]. apply andb_prop in Hf. destruct Hf as [Hf _].
-    apply andb_prop in Hf. destruct Hf as [Hf Hsm]. apply andb_prop in Hf. destruct Hf as [_ Hsh].
+    apply andb_prop in Hf. destruct Hf as [_ Hsh].
     destruct sh as [|d [|? ?]]; try discriminate Hsh. apply Z.eqb_eq in Hsh. subst d. rewrite forallb_forall in Hall.
     cbn [get_state map]. rewrite Nat2Z.id, (tolist_rank1 (fun x s0 => get_state D x s0)). destruct (fresh st) as [lid sta].
     destruct (states_total D l) with (st := sta) as [js [st1 ->]].
     { rewrite Forall_forall in *. intros x Hx. apply IH; [exact Hx|apply Hall; exact Hx]. }
     cbn [bind]. change (jindex (list_state js lid) (CodecDump.K "content")) with (Ok (A:=json) (JArr js)). cbn [bind].
-    rewrite (shape_state_small _ st1 Hsm). eauto.
+    destruct (shape_state _ st1) as [shj st2]. eauto.
   - intros id mo c d k IHd IHk Hf st. cbn [fragb] in Hf. apply andb_prop in Hf. destruct Hf as [Hf Hfk]. apply andb_prop in Hf. destruct Hf as [_ Hfd].
     cbn [get_state]. destruct (IHd Hfd st) as [jd [st1 ->]]. cbn [bind]. destruct (IHk Hfk st1) as [jk [st2 ->]]. cbn [bind]. eauto.
   - intros id mo c x IHx Hf st. cbn [fragb] in Hf. apply andb_prop in Hf. destruct Hf as [_ Hfx].
